@@ -1,0 +1,44 @@
+//go:build verif
+// +build verif
+
+package rtree
+
+import "github.com/ctessum/geom"
+
+// VerifNode is a read-only snapshot of one tree node, exported only under
+// the verif build tag so that structural invariants (balance, exact
+// envelopes, fan-out) can be checked from outside the package.
+type VerifNode struct {
+	Leaf     bool
+	Level    int
+	ParentOK bool          // parent pointer refers to the node that holds this one (nil for the root)
+	Boxes    []geom.Bounds // copies of the entry boxes
+	Objs     []geom.Geom   // objects of the entries (nil for entries with a child)
+	Children []*VerifNode  // children of the entries (nil for entries with an object)
+}
+
+// VerifSnapshot returns a snapshot of the whole node structure.
+func (tree *Rtree) VerifSnapshot() *VerifNode {
+	return verifSnapshot(tree.root, nil)
+}
+
+// VerifHeight returns the stored height field (what Depth reports).
+func (tree *Rtree) VerifHeight() int { return tree.height }
+
+func verifSnapshot(n, parent *node) *VerifNode {
+	v := &VerifNode{Leaf: n.leaf, Level: n.level, ParentOK: n.parent == parent}
+	for _, e := range n.entries {
+		var b geom.Bounds
+		if e.bb != nil {
+			b = *e.bb
+		}
+		v.Boxes = append(v.Boxes, b)
+		v.Objs = append(v.Objs, e.obj)
+		if e.child != nil {
+			v.Children = append(v.Children, verifSnapshot(e.child, n))
+		} else {
+			v.Children = append(v.Children, nil)
+		}
+	}
+	return v
+}
